@@ -242,7 +242,9 @@ def e2e_worker(bdir, cases, tier):
                     res.counters.inc("e2e_possible_duplicate_flagged")
                 if kind in ("stall", "refused-connect"):
                     res.counters.inc("e2e_" + kind.replace("-", "_"))
-                res.sample({"e2e_script": wit["script"], "reports": core.hx(out[:160])}, cap=2)
+                if kind != "random" or len(res.counters.get("samples_loopback", [])) < 2:
+                    res.counters.setdefault("samples_loopback", []).append(
+                        {"loopback_script": wit["script"], "reports": core.hx(out[:200])})
     finally:
         sink.close()
     return res
@@ -375,8 +377,9 @@ def judge_rspawn_batch(res, grp, got):
         for rule in judge_report(w, o, rep):
             res.violate("C09/rspawn-bin/%s/%s" % (rule, site), rule,
                         {"output": core.hx(o[:300]), "output_hex": o[:2000].hex(), "status": st, "report": core.hx(rep[:300])})
-        if k == 0:
-            res.sample({"rspawn_child_output": core.hx(o[:60]), "status": st, "relayed": core.hx(rep[:60])}, cap=1)
+        if site != "fold-K" and len(res.counters.get("samples_rspawn", [])) < 3:
+            res.counters.setdefault("samples_rspawn", []).append(
+                {"rspawn_child_output": core.hx(o[:60]), "status": st, "relayed": core.hx(rep[:70])})
 
 
 def compile_standin(b):
@@ -423,26 +426,28 @@ def main(tier):
             args = args + [f]
         jobs.append(("h", binary, args, env, to))
 
-    # (a) slow jobs first: code family, form family (n = max), then the small ones
-    nmax = 2 if quick else 3
-    nsplit = 16 if quick else 64
-    for fam in (3, 2):
-        for j in range(nsplit):
-            hjob(hs, ["enum", fam, nmax, 0, 0, j, nsplit, 97 if quick else 997])
-    nrand = core.scaled(160000 if quick else 16000000)
-    for j in range(16):
-        hjob(hs, ["rand", nrand // 16, core.seed() * 1000 + j, 61 if quick else 1999])
-    for fam in (3, 2):
-        for n in range(1, nmax):
-            for j in range(4):
-                hjob(hs, ["enum", fam, n, 0, 0, j, 4, 97 if quick else 997])
-    for n in range(1, (4 if quick else 5) + 1):
+    # (a) samples come from the first jobs: focus + the class family; then the big families, deepest first
+    hjob(hs, ["focus", 3, 1])
+    n1max = 4 if quick else 5
+    for n in range(1, n1max + 1):
         for w in range(3):
             for m in range(2):
                 if n >= 4 and (w or m) and quick:
                     continue
                 hjob(hs, ["enum", 1, n, w, m, 0, 1, 1 if n <= 2 and not w else 23])
-    hjob(hs, ["focus", 3, 1])
+    deep = {2: 3, 3: 2} if quick else {2: 4, 3: 3}          # family -> recipients
+    nmax = max(deep.values())
+    every = 197 if quick else 1999
+    for n in (4, 3, 2, 1):
+        for fam in (2, 3):
+            if n > deep[fam]:
+                continue
+            ns = {4: 256, 3: 64, 2: 16, 1: 4}[n]
+            for j in range(ns):
+                hjob(hs, ["enum", fam, n, 0, 0, j, ns, every])
+    nrand = core.scaled(160000 if quick else 16000000)
+    for j in range(16):
+        hjob(hs, ["rand", nrand // 16, core.seed() * 1000 + j, 61 if quick else 1999])
     # (c) in-process report(): one process per output family + random outputs
     for k in range(NFAM):
         hjob(hr, ["all", k, k + 1, 3])
@@ -462,11 +467,12 @@ def main(tier):
     rc_cases = rspawn_cases(tier)
     for k in range(4):
         jobs.append(("rspawn", b.dir, standin, rc_cases[k::4], tier))
-    jobs.sort(key=lambda j: 0 if j[0] == "e2e" else 1)       # stalls cost wall time: start them first
+    jobs.sort(key=lambda j: 0 if j[0] == "e2e" else 1)       # stalls cost wall time: start them first (stable sort)
     res = core.pmap(_job, jobs, timeout=to * 2)
     # independent re-judgement of the emitted records by the Python model
     res.merge(core.pmap(rejudge_worker, [(f,) for f in emits], timeout=to))
 
+    res.samples = (res.samples[:5] + res.counters.pop("samples_loopback", [])[:3] + res.counters.pop("samples_rspawn", [])[:2])
     pcs = sorted(k[3:] for k, v in res.counters.items() if k.startswith("pc_") and v)
     epcs = sorted(k[7:] for k, v in res.counters.items() if k.startswith("e2e_pc_") and v)
     extra = {
@@ -474,9 +480,9 @@ def main(tier):
         "distinct_phase_class_combinations_loopback": len(epcs),
         "phase_class_combinations": pcs,
         "exhaustive": True,
-        "exhaustive_scope": "(a) every script of the three families below for 1..%d recipients (pruned only where the real client "
-                            "never consulted the later phases); (c) 56 output families x every exit code 0..255 and every signal 1..127 "
-                            "(with/without core flag)" % nmax,
+        "exhaustive_scope": "(a) every script of the families 'classes' (n<=%d), 'codes' (n<=%d), 'forms' (n<=%d) (a subtree is pruned "
+                            "only where the real client never consulted the later phases); (c) 56 output families x every exit code "
+                            "0..255 and every signal 1..127 (with/without core flag)" % (n1max, deep[2], deep[3]),
     }
     rule = ("(a) scripts = one server action per phase (greeting, HELO, MAIL, RCPT of each of n recipients keyed by address, DATA, final dot) "
             "run against the real smtp() in-process; enumerated depth-first, a subtree is skipped only when the real client never consulted "
@@ -489,7 +495,7 @@ def main(tier):
             "(b) %d scripts real qmail-remote -> loopback sink (every phase x class/drop for n=2, stalls, refused connect, random). "
             "(c) real report() on 56 output families x 511 wait statuses + %d random outputs, and the real qmail-rspawn binary with a scripted "
             "$QMAILREMOTE on %d output x status cases. Oracle = folded verdict per recipient (qmail-remote(8)) against the set of verdicts the "
-            "statement does not refute." % (4 if quick else 5, nmax, nmax, nrand, len(cases), nrr, len(rc_cases)))
+            "statement does not refute." % (n1max, deep[2], deep[3], nrand, len(cases), nrr, len(rc_cases)))
     return core.finish(PROP, tier, "exploration", res, rule, t0, extra=extra, assumptions=[
         "reference model nqv/refmodel/remote_model.py (from qmail-remote(8), qmail-rspawn(8), RFC 5321 reply classes) and its C twin in "
         "the harnesses; the Python model re-judges emitted records from the script alone",
@@ -529,6 +535,8 @@ def replay(path):
             subprocess.run([hr, "one", str(ws), wit["output_hex"] or "-"], env=env)
         elif wit.get("harness_args"):
             a = wit["harness_args"].split()
+            if a and a[-1].startswith("/"):
+                a = a[:-1]                 # the emit file of the original run
             subprocess.run([hr if a[0] in ("all",) or "rspawn" in key else hs] + a, env=env)
     print("full re-run: VERIF_SEED=%s ./check C09 --tier %s" % (w.get("seed"), w.get("tier")))
     return 1 if w.get("cases") else 2
